@@ -33,7 +33,7 @@ _INFO = {}
 
 CX_ONLY = ['child_attrs(x)', 'child_attrs(n1)', 'child_attrs(n0)', 'child_attrs_all', 'child_attrs_all+n1', 'child_attrs_noexc', 'subclass', 'append_field', 'insert_field',
            'customize(type_name)']
-POOL_SIZE = {'full': 8, 'cx': 2, 'prim': 4, 'mix': 3}
+POOL_SIZE = {'full': 8, 'cx': 2, 'cx4': 2, 'prim': 4, 'mix': 3}
 MIX_OPS = ['mix-in(first)', 'mix-in(both)', 'subclass', 'customize(min_occurs=1)', 'Array(T)', 'append_field']
 _CUR = {'mixins': ()}
 CX_OPS = ['customize(min_occurs=1)', 'customize(sub_name)', 'child_attrs(x)', 'child_attrs(n1)', 'child_attrs(n0)', 'child_attrs_all', 'child_attrs_all+n1',
@@ -57,7 +57,7 @@ def fresh_pool(cfg='full'):
     _SUBCOUNT[0] = 0
     A = ComplexModelMeta('A', (ComplexModel,), {'__namespace__': 'urn:vf:c15', '_type_info': [('x', Integer), ('s', Unicode)]})
     B = ComplexModelMeta('B', (A,), {'__namespace__': 'urn:vf:c15', '_type_info': [('y', Integer)]})
-    if cfg == 'cx':
+    if cfg in ('cx', 'cx4'):
         return [('A', A), ('B', B)]
     if cfg == 'mix':
         # two mixin classes and a plain class: classes are also composed from mixins
@@ -95,6 +95,10 @@ def operations(tier, cfg='full'):
     """[(op id, applicable(model) -> bool, apply(model) -> new model, requested attrs or None)]"""
     if cfg == 'cx':
         return [o for o in operations('thorough') if o['id'] in CX_OPS]
+    if cfg == 'cx4':
+        # the depth-4 search of the thorough tier: the nine operations it completed with before the set grew (11^4 transitions
+        # per seed model did not finish in half an hour)
+        return [o for o in operations('thorough') if o['id'] in CX_OPS and o['id'] not in ('child_attrs_all+n1', 'child_attrs_noexc')]
     if cfg == 'prim':
         return [o for o in operations('thorough') if o['id'] not in CX_ONLY and not o['id'].startswith('mix-in')]
     if cfg == 'mix':
@@ -401,7 +405,9 @@ def shards(tier):
     """quick: full pool depth 2, complex-only pool depth 3.  thorough: full pool depth 2 with the larger operation set, complex-only
     pool depth 4, primitives-only pool depth 3 (a full-pool search to depth 3 is ~1.4 million transitions: more than an hour)"""
     out = [{'kind': 'bfs', 'prefix': [fs], 'depth': 2, 'tier': tier} for fs in first_steps(tier)]
-    out += [{'kind': 'bfs', 'prefix': [fs], 'depth': 3 if tier == 'quick' else 4, 'tier': tier, 'cfg': 'cx'} for fs in first_steps(tier, 'cx')]
+    out += [{'kind': 'bfs', 'prefix': [fs], 'depth': 3, 'tier': tier, 'cfg': 'cx'} for fs in first_steps(tier, 'cx')]
+    if tier == 'thorough':
+        out += [{'kind': 'bfs', 'prefix': [fs], 'depth': 4, 'tier': tier, 'cfg': 'cx4'} for fs in first_steps(tier, 'cx4')]
     out += [{'kind': 'bfs', 'prefix': [fs], 'depth': 3, 'tier': tier, 'cfg': 'mix'} for fs in first_steps(tier, 'mix')]
     if tier == 'thorough':
         out += [{'kind': 'bfs', 'prefix': [fs], 'depth': 3, 'tier': tier, 'cfg': 'prim'} for fs in first_steps(tier, 'prim')]
